@@ -1,7 +1,7 @@
 #!/usr/bin/env python3
 """Mechanical mutation campaign against one unit: mutate lines inside the functions under contract in a scratch
 worktree (VERIF_REPO=/tmp/wt2), run the unit, report detected / undecided / survived.
-usage: mutate.py <unit> [max_mutants] [seed]"""
+usage: mutate.py <unit> [max_mutants] [seed] [file:from-to ...]   (explicit line ranges, e.g. for generated sources whose text lives in remoc_macro)"""
 import os, random, re, subprocess, sys
 sys.path.insert(0, '/verif/lib')
 os.environ['VERIF_REPO'] = '/tmp/wt2'
@@ -15,7 +15,18 @@ OPS = [(r' <= ', ' < '), (r' < ', ' <= '), (r' >= ', ' > '), (r' > ', ' >= '), (
        (r'\bfirst\b', 'last'), (r'\blast\b', 'first'), (r'\+= ', '-= '), (r'-= ', '+= '), (r'\.min\(', '.max('), (r'\.max\(', '.min('),
        (r'\b1\b', '2'), (r'\b4\b', '3'), (r'\b0\b', '1'), (r'!self\.', 'self.'), (r'\bSome\(', 'Some(('), ]
 cands = []
-for f in u.fns:
+ranges = [a for a in sys.argv[4:]]
+for r in ranges:
+    file, span = r.split(':'); a0, b0 = [int(x) for x in span.split('-')]
+    lines = open(os.path.join(WT, file)).read().split('\n')
+    for ln in range(a0 - 1, min(len(lines), b0)):
+        t = lines[ln]
+        if t.strip().startswith('//') or 'tracing::' in t or 'panic!' in t or 'format!' in t: continue
+        for rx, rp in OPS:
+            if rp == 'Some((': continue
+            for m in re.finditer(rx, t):
+                cands.append((file, ln, m.start(), m.end(), rp, r))
+for f in ([] if ranges else u.fns):
     if not f.name or f.name.split(' ')[0] in ('struct', 'enum', 'const'): continue
     path = os.path.join(WT, f.file); lines = open(path).read().split('\n')
     n = f.orig.count('\n') + 1
